@@ -161,6 +161,23 @@ structure Follow (rest : Txt) : Prop where
   head : ∀ c r, rest = c :: r → isBlankC c = true ∨ c = 44 ∨ c = 47 ∨ c = 93
   next : ∀ c r, skipWs rest = c :: r → c = 44 ∨ c = 47 ∨ c = 93
   noShift : ∀ r, lit true [44] rest = some r → shiftOp r = none
+  /-- a slash begins a `//` comment -/
+  slash : ∀ r, skipWs rest = 47 :: r → ∃ r', r = 47 :: r'
+
+/-- only the first character matters: a blank, a comma, a slash or a closing bracket (or nothing) -/
+structure HeadStop (rest : Txt) : Prop where
+  head : ∀ c r, rest = c :: r → isBlankC c = true ∨ c = 44 ∨ c = 47 ∨ c = 93
+
+theorem HeadStop.stops (p : Nat → Bool) (rest : Txt) (h : HeadStop rest)
+    (hp : p 32 = false ∧ p 9 = false ∧ p 44 = false ∧ p 47 = false ∧ p 93 = false) : StopsAt p rest := by
+  intro c r hc
+  rcases h.head c r hc with hb | rfl | rfl | rfl
+  · simp [isBlankC] at hb; rcases hb with rfl | rfl <;> simp [hp]
+  · exact hp.2.2.1
+  · exact hp.2.2.2.1
+  · exact hp.2.2.2.2
+
+theorem Follow.headStop {rest : Txt} (h : Follow rest) : HeadStop rest := ⟨h.head⟩
 
 theorem Follow.stops (p : Nat → Bool) (rest : Txt) (h : Follow rest)
     (hp : p 32 = false ∧ p 9 = false ∧ p 44 = false ∧ p 47 = false ∧ p 93 = false) : StopsAt p rest := by
